@@ -19,6 +19,12 @@ import (
 // Several failing writes end in log.Crit -> os.Exit(1); a leaked lock shows up as a hang. Both kill or freeze the
 // process, so fault cases run in a re-exec'd child that mirrors every applied write to a file (unbuffered). The parent
 // rebuilds the on-disk image from the mirror, treats "process exited" as a crash and judges the reopened image.
+//
+// A failure the node SURVIVES (InsertChain returns an error, no log.Crit) is not a crash: the child goes on in the same
+// process with everything the node keeps in memory (block/header/td caches, trie memory layer): the failed segment is
+// offered again, then the rest of the history (a competing branch may overtake), then Stop; the parent reopens the
+// final image and runs the full judgement. What must not happen: a block that never reached the disk becomes part of the
+// canonical chain because some cache vouched for it.
 
 const (
 	exitDone     = 0
@@ -60,6 +66,7 @@ func childChain(sc Scenario, failAt int, mirror string) {
 	}
 	db.mirror = f
 	db.FailAt = failAt
+	r.Retry = 2 // a segment whose import failed is offered again (same process, same caches)
 	for i := range b.Ops {
 		done := make(chan struct{})
 		go func() {
